@@ -139,7 +139,21 @@ def run_pair(prog, nl, nr):
             # nothing else
             for o in outf:
                 check(res, z3.Or(*[o[2] == x["cid"] for x in lm + rm]), "merged patch contains a commit from neither side")
-            # stability: records with equal time keep local-before-remote order (position of local i before remote j)
+            # records of one device that carry the same timestamp keep their log order (create-then-delete made in
+            # the same instant must not come out as delete-then-create)
+            for side, metas in (("local", lm), ("remote", rm)):
+                for i in range(len(metas)):
+                    for j in range(i + 1, len(metas)):
+                        a, b = metas[i], metas[j]
+                        others = rm if side == "local" else lm
+                        # a record that was also made on the other side is represented by one copy, which carries
+                        # that copy's own timestamp: only records unique to this side are bound to their log order
+                        unique = z3.And(*[z3.And(o["cid"] != a["cid"], o["cid"] != b["cid"]) for o in others]) if others else z3.BoolVal(True)
+                        tie = z3.And(unique, a["secs"] == b["secs"], a["nanos"] == b["nanos"])
+                        swapped = z3.Or(*[z3.And(outf[k1][2] == a["cid"], outf[k2][2] == b["cid"])
+                                          for k1 in range(len(outf)) for k2 in range(k1)]) if len(outf) > 1 else z3.BoolVal(False)
+                        check(res, z3.Implies(tie, z3.Not(swapped)),
+                              "two %s records with the same timestamp come out in the opposite of their log order" % side)
         if not out["samples"]:
             mm = H.witness_for(res)
             if mm is not None:
@@ -177,6 +191,16 @@ def oracle_violated(case, nat):
         return True
     if set(oc) != set(lc) | set(rc):
         return True
+    for side in (L, R):
+        for i in range(len(side)):
+            for j in range(i + 1, len(side)):
+                a, b = side[i], side[j]
+                other = rc if side is L else lc
+                if a["commit"] in other or b["commit"] in other:
+                    continue
+                if (a["secs"], a["nanos"]) == (b["secs"], b["nanos"]) and a["commit"] in oc and b["commit"] in oc \
+                        and oc.index(a["commit"]) > oc.index(b["commit"]):
+                    return True
     return False
 
 
